@@ -345,7 +345,7 @@ pub fn sweep_pgp(p: &rpm::Package) -> Result<(), (String, String)> {
     Ok(())
 }
 
-const MAX_SINGLE_BASE: usize = 1 << 20;
+const MAX_SINGLE_BASE: usize = 16 << 20;
 const MAX_SINGLE_PER_BYTE: usize = 64;
 const MAX_TOTAL_BASE: usize = 256 << 20;
 const MAX_TOTAL_PER_BYTE: usize = 4096;
